@@ -46,6 +46,10 @@ ABS_FORMS = [
     ("from-sub-as-and-name", "from top.c.p import s as z, name", {"p.s", "p"}, set()),
     ("from-star", "from top.c.p import *", {"p"}, set()),
     ("from-sub-nsp", "from top.c.q import u", {"q.u"}, {"q"}),
+    # external names that also exist as internal module names directly below the root: no internal edge
+    ("external-shadowed-by-internal-name", "import os", set(), set()),
+    ("external-from-shadowed-by-internal-name", "from json import tool", set(), set()),
+    ("external-dotted-shadowed", "import json.tool", set(), set()),
 ]
 REL_FORMS = [
     ("rel-import", "from {L} import t", {"t"}, set()),
@@ -82,6 +86,9 @@ BASE_FILES = {
     "top/c/p/s.py": "name = 1\n",
     "top/c/q/u.py": "",
     "top/c/d/__init__.py": "",
+    "top/os.py": "",
+    "top/json/__init__.py": "",
+    "top/json/tool.py": "",
 }
 
 
